@@ -27,13 +27,13 @@ Init == /\ si = RunPrefix(InitState(Lim, {}), Prefix)
         /\ hist = <<>>
         /\ div = [at |-> 0, st |-> "", devs |-> {}]
 
-Leaf == Status(si) # "ok" \/ Len(hist) >= MaxLen
+Leaf == si.st = "rejected" \/ Len(hist) >= MaxLen
 
 Next == /\ ~Leaf
         /\ \E i \in 1..Len(Alphabet) :
              /\ Filter(si, Alphabet[i])
              /\ si' = Step(si, Alphabet[i])
-             /\ sa' = Step(sa, Alphabet[i])
+             /\ sa' = IF OpenDevs = {} THEN si' ELSE Step(sa, Alphabet[i])
              /\ si'.st = "rejected" => si'.why \in Reasons
              /\ hist' = Append(hist, i)
              /\ div' = IF div.at = 0 /\ Status(si') # Status(sa')
@@ -43,7 +43,7 @@ Next == /\ ~Leaf
 Emit == Leaf => PrintT("@@" \o ToJson([h |-> hist, st |-> Status(si), why |-> si.why,
                                         dat |-> div.at, dst |-> div.st, ddevs |-> div.devs]))
 
-Inv == StateOK(si) /\ StateOK(sa)
+Inv == StateOK(si) /\ (OpenDevs # {} => StateOK(sa))
 
 ASSUME PrintT("@@" \o ToJson([alphabet |-> Alphabet, prefix |-> Prefix,
                                fwd |-> [i \in 1..Len(Alphabet) |-> Forward(Alphabet[i])]]))
